@@ -1,0 +1,64 @@
+//go:build verif
+
+package k8s
+
+// Contracts checked by /verif/gvc. Comment-only file (build tag verif).
+
+// indexable(pod): the pod is looked up by its IP -- it has an IP, is not finished or being deleted, and does not
+// share the host's network (CLOUDPROVIDERS.md).
+//@ pred indexable(pod *core_v1.Pod) := pod.Status.PodIP != "" && pod.Status.Phase != "Succeeded" && pod.Status.Phase != "Failed" && pod.ObjectMeta.DeletionTimestamp == nil && !pod.Spec.HostNetwork && pod.Status.PodIP != pod.Status.HostIP
+//@ func podIsHostNetwork
+//@   requires pod != nil
+//@   ensures  result == (pod.Spec.HostNetwork || pod.Status.PodIP == pod.Status.HostIP)
+//@ func podIsFinishedRunning
+//@   requires pod != nil
+//@   ensures  result == (pod.Status.Phase == "Succeeded" || pod.Status.Phase == "Failed" || pod.ObjectMeta.DeletionTimestamp != nil)
+//@ func isIndexablePod
+//@   requires pod != nil
+//@   ensures  result == indexable(pod)
+
+// The IP index holds a pod under its IP exactly when it is indexable.
+//@ func podByIpIndexFunc
+//@   requires isType(obj, v1.Pod) && payload(obj, v1.Pod) != nil
+//@   ensures  result1 == nil
+//@   ensures  indexable(payload(obj, v1.Pod)) ==> len(result0) == 1 && result0[0] == payload(obj, v1.Pod).Status.PodIP
+//@   ensures  !indexable(payload(obj, v1.Pod)) ==> len(result0) == 0
+
+// getTagNameFromRegex: "" when the regex does not match; else the non-empty text of the first capture group named
+// "tag"; else the whole key when the regex matched non-empty text; else "".
+//@ pred tagGroup(re *regexp.Regexp, s string, i int) := reName(re, i) == "tag" && reGroup(re, s, i) != ""
+//@ func getTagNameFromRegex
+//@   requires re != nil
+//@   ensures  !regexMatch(re, s) ==> result == ""
+//@   ensures  regexMatch(re, s) ==> forall i int :: 0 <= i && i < reNsub(re) && tagGroup(re, s, i) && (forall j int :: 0 <= j && j < i ==> !tagGroup(re, s, j)) ==> result == reGroup(re, s, i)
+//@   ensures  regexMatch(re, s) && (forall i int :: 0 <= i && i < reNsub(re) ==> !tagGroup(re, s, i)) ==> result == ite(reGroup(re, s, 0) != "", s, "")
+//@   loop 1 invariant forall j int :: 0 <= j && j <= rangeindex ==> !tagGroup(re, s, j)
+//@   modifies allElems(string)
+
+// Invalidation: an event about an indexable pod version forgets what is memoised for that version's IP, and nothing
+// else; an event about a version that was never in the index changes nothing.
+//@ func (cacheInvalidationHandler).maybeInvalidateCacheForPod
+//@   requires e.p != nil && pod != nil && e.p.cache != nil
+//@   ensures  indexable(pod) ==> !(pod.Status.PodIP in e.p.cache)
+//@   ensures  forall ip gostatsd.Source :: (!indexable(pod) || ip != pod.Status.PodIP) ==> (ip in e.p.cache) == old(ip in e.p.cache) && e.p.cache[ip] == old(e.p.cache[ip])
+//@   modifies e.p.cache[*], e.p.rw
+// An update invalidates by the *old* version (the one a memoised answer could have been built from).
+//@ func (cacheInvalidationHandler).OnUpdate
+//@   requires e.p != nil && e.p.cache != nil && isType(oldObj, v1.Pod) && payload(oldObj, v1.Pod) != nil
+//@   callsite maybeInvalidateCacheForPod requires pod == payload(oldObj, v1.Pod)
+//@   ensures  calls(maybeInvalidateCacheForPod) == 1
+//@   modifies e.p.cache[*], e.p.rw
+//@ func (cacheInvalidationHandler).OnAdd
+//@   ensures  calls(maybeInvalidateCacheForPod) == 0
+
+// Lookups are memoised per IP: a memoised instance is returned as is; otherwise the informer is asked and whatever
+// it answers (possibly nothing) is remembered; other IPs are untouched.
+//@ func (*Provider).instanceFromCache
+//@   requires p != nil && p.cache != nil
+//@   ensures  old(p.cache[ip]) != nil ==> result == old(p.cache[ip]) && calls(instanceFromInformer) == 0
+//@   ensures  old(p.cache[ip]) == nil ==> calls(instanceFromInformer) == 1 && (ip in p.cache) && p.cache[ip] == result
+//@   ensures  forall o gostatsd.Source :: o != ip ==> (o in p.cache) == old(o in p.cache) && p.cache[o] == old(p.cache[o])
+//@   modifies p.cache[*], p.rw
+//@ func (*Provider).instanceFromInformer
+//@   trusted
+//@   ensures  result == nil || fresh(result)
